@@ -158,7 +158,7 @@ Definition solve_bicg (itol : nat) (b x : list F) (max_iter : nat) (tol : F) : r
   let bnrm := nz bnrm in
   let* err := div (norm2 z) bnrm in
   let X := norm2 x in
-  if leb err tol then Ok (IOk 0, x, mkG (if itol =? 2 then z else r) X 0) else
+  if leb err tol then Ok (IOk 0, x, mkG z X 0) else              (* the start-up test is on z for both itol *)
   iloop (bicg_body itol tol bnrm) (bicg_final itol) max_iter 1
         (mkBI x r r z zeros zeros zeros one err X).
 
@@ -330,3 +330,5 @@ End Iter.
 Arguments iresult A : clear implicits.
 Arguments ghost A : clear implicits.
 Arguments iout A : clear implicits.
+Arguments Continue {A S} s.
+Arguments Return {A S} o.
